@@ -482,13 +482,13 @@ def classifier_threads(ctx, viol, tier, rng):
         f = rng.choice([1, 1, 2])
         pairs.append(("sqlstate_classifier", sql_exc(a_, f, j), sql_exc(b_, f, j + 1)))
         pairs.append(("pyodbc_classifier", sql_exc(a_, 1, j), sql_exc(b_, 1, j + 1)))
-    for j in range(12 if tier == "quick" else 90):
+    for j in range(16 if tier == "quick" else 120):
         na, nb = rng.sample(["AuthError", "TimeoutThing", "ForbiddenError", "PlainError", "RateLimitExceeded", "ConflictError"], 2)
-        fname = ["http_classifier", "default_classifier", "strict_classifier"][j % 3]
+        fname = ["http_classifier", "default_classifier", "strict_classifier", "http_classifier"][j % 4]
         # documented statuses on both sides: an answer from a half-built table shows as UNKNOWN
         sa, sb = rng.sample([s_ for s_ in TABLE if isinstance(s_, int)], 2)
         pairs.append((fname, named(na, "status", sa), named(nb, rng.choice(["status", "code"]), sb)))
-    limit = 40 if tier == "quick" else 400
+    limit = 160 if tier == "quick" else 600
     for pi, (fname, ea, eb) in enumerate(pairs):
         if pi % ctx.nshards != ctx.shard:
             continue
